@@ -23,7 +23,7 @@ def gen_system(R, nmax):
     n = R.choice([1, 1, 2, 2, 3, 3, 4, 5, 6, 7, 8, 9, 10][: 3 + 2 * nmax]) if nmax < 5 \
         else min(nmax, R.choice([1, 2, 2, 3, 3, 4, 4, 5, 6, 7, 8, 9, 10]))
     n = max(1, min(n, nmax))
-    fam = R.choice(FAMILIES)
+    fam = R.choice(FAMILIES + ("near_I",))
     s = R.randrange(10 ** 6)
     cond = 10 ** R.choice([0, 1, 1, 2, 3])
     if fam == "generic":
@@ -148,8 +148,13 @@ def gen_trace(seed, world, tier, mode=None, chunk=None):
                 _solve_steps(steps, sysd, 0, tol, prec, cap, storage, jitter, R)
         sc = R.choice([0, 0, -6, -3, 3, 6])
         if sc != 0:
+            # scaled twin of the system; half of the time at a tight tolerance, where absolute
+            # thresholds inside the iteration (if any) are most likely to interfere
+            tol_s = tol if R.random() < 0.5 else R.choice([1e-10, 1e-12])
             for prec in precs:
-                _solve_steps(steps, sysd, sc, tol, prec, None, storage, jitter, R)
+                _solve_steps(steps, sysd, sc, tol_s, prec, None, storage, jitter, R)
+                if tol_s != tol:
+                    _solve_steps(steps, sysd, 0, tol_s, prec, None, storage, jitter, R)
     elif mode == "lu_fail":
         sysd = gen_system(R, min(nmax, 6))
         _solve_steps(steps, sysd, 0, tol, "none", None, storage, False, R)
